@@ -204,6 +204,8 @@ impl LexiconReader {
             // C12 / C05: the binary holds the number of NEW parts of speech and then exactly their strings, in id order
             r is Ok ==> final(w).sink() == old(w).sink() + le16u((self.pos.ents().len() - self.start_pos) as u16)
                 + rows_bytes(self.pos.ents(), self.start_pos as int, self.pos.ents().len() as int),
+            // the reported size is the number of bytes written (the caller adds it to the offset of the sections that follow)
+            r is Ok ==> r->Ok_0 == 2 + rows_bytes(self.pos.ents(), self.start_pos as int, self.pos.ents().len() as int).len(),
 //@  atstart
         let ghost s0 = w.sink();
         let ghost t = self.pos.ents();
@@ -211,7 +213,7 @@ impl LexiconReader {
 //@  loop 1
             invariant
                 t == self.pos.ents(), pos_wf(t), sp == self.start_pos, sp <= t.len(), __ip <= t.len(),
-                written_bytes <= 2 + 3_600_000 * __ip,
+                written_bytes <= 2 + 3_600_000 * __ip, written_bytes == 2 + rows_bytes(t, sp, __ip as int).len(),
                 w.sink() == s0 + le16u((t.len() - sp) as u16) + rows_bytes(t, sp, __ip as int),
             decreases t.len() - __ip
 //@  loop 2
@@ -219,6 +221,7 @@ impl LexiconReader {
                     t == self.pos.ents(), pos_wf(t), sp == self.start_pos, sp <= t.len(), 0 < __ip <= t.len(), sp <= __ip - 1, __if <= 6,
                     __fl@.len() == 6, forall|k: int| 0 <= k < 6 ==> (#[trigger] __fl@[k]).text() == t[__ip - 1].0[k],
                     written_bytes <= 2 + 3_600_000 * (__ip - 1) + 600_000 * __if,
+                    written_bytes == 2 + rows_bytes(t, sp, __ip - 1).len() + fields_bytes(t[__ip - 1].0, __if as int).len(),
                     w.sink() == s0 + le16u((t.len() - sp) as u16) + rows_bytes(t, sp, __ip - 1) + fields_bytes(t[__ip - 1].0, __if as int),
                 decreases 6 - __if
 //@  before if (*pos_id as usize)
